@@ -866,6 +866,9 @@ fn check_one<F: Float, L: Label + Default + std::fmt::Debug, D: ndarray::Data<El
             );
         }
     }
+    if !case.layouts {
+        return None;
+    }
     let mut summary = String::new();
     for nd in tree.iter_nodes() {
         let (f, t, dcr) = nd.split();
